@@ -15,7 +15,6 @@ git diff > $out/patch.diff
 demo=$(git status --porcelain | grep '^??' | awk '{print $2}' | grep '_test.go$' | head -1)
 [ -z "$demo" ] && { echo "CONFIRM $id no-demo-file"; exit 3; }
 cp $demo $out/$(basename $demo)
-echo "$demo" > $out/.demo_path
 demodir=./$(dirname $demo)
 b=ok; s=ok; dw=?; dwo=?
 go build ./... >/dev/null 2>&1 || b=FAIL
